@@ -254,9 +254,8 @@ def mapDelete (kvs : List (String × Json)) (k : String) : List (String × Json)
   kvs.filter (fun kv => kv.1 ≠ k)
 
 /-- distinct keys of the map, in first-occurrence order (Go's order is random) -/
-def mapKeys : List (String × Json) → List String
-  | [] => []
-  | kv :: rest => kv.1 :: mapKeys (mapDelete rest kv.1)
+def mapKeys (kvs : List (String × Json)) : List String :=
+  kvs.foldl (fun acc kv => if acc.contains kv.1 then acc else acc ++ [kv.1]) []
 
 /-- Named binding: loop over the configured parameters, deleting found members from the map;
 returns the arguments and the remaining map. -/
@@ -453,7 +452,7 @@ def handleInput (cfg : Config) (env : Env) (tbl : Table) (inp : Input) : Output 
     | some (.arr []) => single (errResponse InvalidRequest (some (.str "empty batch")))
     | some (.arr xs) =>
       let rs := batchResponses cfg env tbl xs
-      { body := if rs = [] then none else some (.arr (rs.map Response.toJson)),
+      { body := if rs.isEmpty then none else some (.arr (rs.map Response.toJson)),
         log := batchLog cfg env tbl xs }
     | some _ => single (errResponse InvalidJSON (some opaque))  -- Decode(&[]RawMessage) type error
   else single (errResponse InvalidRequest (some (.str "batch requests are disabled")))
